@@ -451,7 +451,11 @@ class MetaOps(Relation):
                                       'update_pos_bad_kwarg',
                                       'update_kwargs_mixed',
                                       'ctor_dict', 'ctor_pairs', 'ctor_kwargs',
-                                      'assign_dict', 'or', 'fromkeys']),
+                                      'assign_dict', 'or', 'fromkeys',
+                                      # a metadata OBJECT of the other kind
+                                      # (its keys were validated - for it)
+                                      'update_other_kind', 'ior_other_kind',
+                                      'ctor_other_kind']),
             'bad': st.integers(0, 7), 'pos': st.integers(0, 2),
             'via_region': st.booleans(),
         })
@@ -547,6 +551,19 @@ class MetaOps(Relation):
                 obj = getattr(reg, which)
             elif entry == 'fromkeys':
                 result = Cls.fromkeys([k for k, _ in items], 1)
+            elif entry.endswith('_other_kind'):
+                Other = R.RegionVisual if which == 'meta' else R.RegionMeta
+                own = set(Cls.valid_keys) | set(getattr(Cls, 'key_mapping', {}))
+                fk = [k for k in Other.valid_keys if k not in own][
+                    sp['bad'] % 3]
+                other = Other({fk: 'BAD'})
+                tag = f'{which}.{entry} key={fk!r}'
+                if entry == 'update_other_kind':
+                    obj.update(other)
+                elif entry == 'ior_other_kind':
+                    obj |= other
+                else:
+                    result = Cls(other)
         except REJECT:
             pass
         else:
